@@ -704,6 +704,8 @@ func stateRules(c *Ctx) {
 		uncheckedErrorAssert(c, g, short1)
 		scratchReturned(c, g, short1)
 		doubleCheckedLocking(c, g, short1)
+		firstMemberMissed(c, g, short1)
+		memoByAddress(c, g, short1)
 		indexSummed(c, g, short1)
 	}
 	// parsers that link features to a local Sequence (shared by C01, C14, C15)
@@ -4714,6 +4716,98 @@ func doubleCheckedLocking(c *Ctx, g *ssa.Function, short1 string) {
 			}
 		}
 	}
+}
+
+// firstMemberMissed: "is this letter one of these?" asked as strings.Index*(<constant list>, letter) > 0 (or
+// "not one of them" as <= 0): position 0 is a hit too, so the first member of the list is treated as absent.
+func firstMemberMissed(c *Ctx, g *ssa.Function, short1 string) {
+	tb := newTB(g)
+	eachInstr(g, func(i ssa.Instruction) {
+		b, ok := i.(*ssa.BinOp)
+		if !ok {
+			return
+		}
+		var call ssa.Value
+		op := b.Op
+		if k, isK := b.Y.(*ssa.Const); isK && k.Value != nil && k.Value.Kind() == constant.Int && k.Int64() == 0 {
+			call = b.X
+		} else if k, isK := b.X.(*ssa.Const); isK && k.Value != nil && k.Value.Kind() == constant.Int && k.Int64() == 0 {
+			call = b.Y
+			switch op { // 0 op x  ==  x op' 0
+			case token.LSS:
+				op = token.GTR
+			case token.GEQ:
+				op = token.LEQ
+			default:
+				return
+			}
+		}
+		if call == nil || (op != token.GTR && op != token.LEQ) {
+			return
+		}
+		cl, isCall := call.(*ssa.Call)
+		if !isCall {
+			return
+		}
+		switch calleeName(cl) {
+		case "strings.Index", "strings.IndexByte", "strings.IndexRune", "strings.IndexAny", "bytes.Index", "bytes.IndexByte", "bytes.IndexRune", "bytes.IndexAny":
+		default:
+			return
+		}
+		list, isK := normText(tb.T(cl.Call.Args[0])).constStr()
+		if !isK || len(list) == 0 {
+			return
+		}
+		// a position that is also used as a position (index-1, table[index]) is not a bare membership test
+		if cl.Referrers() != nil {
+			for _, r := range *cl.Referrers() {
+				if _, isDbg := r.(*ssa.DebugRef); isDbg || r == ssa.Instruction(b) {
+					continue
+				}
+				return
+			}
+		}
+		c.bad("STATE", "first-member-missed:"+short1, b.Pos(), fmt.Sprintf("%s asks whether a letter is one of %q with %s(...) %s 0: the first member of the list is found at position 0, so %q is treated as not being in the list", short1, list, calleeName(cl), map[token.Token]string{token.GTR: ">", token.LEQ: "<="}[op], list[:1]))
+	})
+}
+
+// memoByAddress: a value worked out from what a list or record of the caller contains is remembered in a
+// package-level map under the ADDRESS of that memory (&list[0], &record.field): the key says where the data
+// lives, not what it is, so after the caller changes the content in place (re-weights a table) the next call is
+// given the number that belonged to the old content.
+func memoByAddress(c *Ctx, g *ssa.Function, short1 string) {
+	tb := newTB(g)
+	eachInstr(g, func(i ssa.Instruction) {
+		var key, val ssa.Value
+		var gl *ssa.Global
+		switch x := i.(type) {
+		case *ssa.MapUpdate:
+			if gl = globalRoot(x.Map); gl != nil {
+				key, val = unwrapIface(x.Key), unwrapIface(x.Value)
+			}
+		case *ssa.Call:
+			if n := calleeName(x); (n == "(*sync.Map).Store" || n == "(*sync.Map).LoadOrStore") && len(x.Call.Args) == 3 {
+				if gl = globalRoot(x.Call.Args[0]); gl != nil {
+					key, val = unwrapIface(x.Call.Args[1]), unwrapIface(x.Call.Args[2])
+				}
+			}
+		}
+		if gl == nil || key == nil {
+			return
+		}
+		switch key.(type) {
+		case *ssa.IndexAddr, *ssa.FieldAddr:
+		default:
+			return
+		}
+		if d, _ := dependsOnArgs(tb.T(key)); !d {
+			return
+		}
+		if _, isK := val.(*ssa.Const); isK {
+			return
+		}
+		c.bad("STATE", "memo-by-address:"+short1+"->"+gl.Name(), i.Pos(), fmt.Sprintf("%s remembers a value in package-level %s under the address of memory its caller owns (%s): the address stays the same when the caller changes what is stored there, so the next call is answered with the value that belonged to the old content", short1, gl.Name(), short(tb.T(key).String())))
+	})
 }
 
 // indexSummed: `for i := range list { total += i }` over a list of numbers whose elements the loop never
